@@ -41,6 +41,9 @@ def rejectMonitor (single : Bool) (b : List Nat) (impl : String) : List String :
 
 def step (toks : List String) (impl : String) : Res :=
   match toks with
+  | ["retainenc", what, _] =>
+    -- the joined stream kept from one call still is that stream after the next call
+    { model := "changed=0", monitor := if impl == "changed=0" then [] else ["join_result_stable"], tags := ["retainenc", what], nontrivial := false }
   | ["enc", items] =>
     let xs := parseItems items
     { model := canon (encContents xs), tags := ["enc", s!"n{min xs.length 65}"], nontrivial := xs.length > 1 }
